@@ -389,6 +389,10 @@ func (w *_node) LookupBySegment(seg datamodel.PathSegment) (datamodel.Node, erro
 func (w *_node) LookupByNode(key datamodel.Node) (datamodel.Node, error) {
 	switch w.Kind() {
 	case datamodel.Kind_Map:
+		if tk, ok := key.(schema.TypedNode); ok && key.Kind() != datamodel.Kind_String {
+			// complex keys (e.g. structs with a string representation) are addressed by that representation
+			key = tk.Representation()
+		}
 		s, err := key.AsString()
 		if err != nil {
 			return nil, err
